@@ -248,7 +248,23 @@ def apply_rules(piece, typemap=None, subs=(), must_fire=(), drop=(), keep_this=F
     # per-unit substitutions first (they see the original text)
     for sub in subs:
         rule, pat, rep = sub[0], sub[1], sub[2]
-        if isinstance(pat, tuple) and pat[0] == 'block':
+        if isinstance(pat, tuple) and pat[0] == 'call':
+            # pattern (ending just before '(') followed by a balanced (...) and an optional ';': the whole statement is replaced
+            n = 0
+            while True:
+                m = re.search(pat[1], t)
+                if not m:
+                    break
+                b = t.index('(', m.end() - 1)
+                e = match_balanced(t, b, '(', ')')
+                m2 = re.match(r'\s*;', t[e:])
+                if m2:
+                    e += m2.end()
+                t = t[:m.start()] + rep + t[e:]
+                n += 1
+                if n > 50:
+                    raise ExtractionError("call substitution does not terminate")
+        elif isinstance(pat, tuple) and pat[0] == 'block':
             # pattern followed by a balanced {...} block: the whole statement is replaced
             n = 0
             while True:
